@@ -26,6 +26,7 @@ type Rq struct {
 	Val     string `json:"val,omitempty"` // string error int ptr abort
 	Sub     bool   `json:"sub,omitempty"` // the handler issues a nested request to the same subject before answering
 	Srv     bool   `json:"srv,omitempty"` // the request context is the one net/http's server provides (ServerContextKey set)
+	ACRH    string `json:"acrh,omitempty"`
 }
 
 type Case struct {
@@ -33,7 +34,10 @@ type Case struct {
 	Recovery string `json:"recovery"` // none func status write log slog nilled
 	Status   int    `json:"status"`
 	Trace    bool   `json:"trace"`
-	UseLate  bool   `json:"use_late"` // Use after the registrations instead of before
+	// CORS: the subject also has a CORS option with a header allow-list, and OPTIONS requests are preflights whose
+	// Access-Control-Request-Headers may hold empty elements - library code that runs inside the recovered region
+	CORS    bool `json:"cors,omitempty"`
+	UseLate bool `json:"use_late"` // Use after the registrations instead of before
 	// Sib: group subjects only - before ("before") or after ("after") the subject router, Group.New makes a sibling
 	// router with a recovery function of its own (matcher /v9: no request of the case goes there)
 	Sib  string `json:"sib,omitempty"`
@@ -53,6 +57,7 @@ func gen(t *rapid.T) Case {
 		Status:   rapid.SampledFrom([]int{500, 503, 418}).Draw(t, "status"),
 		Trace:    rapid.Bool().Draw(t, "trace"),
 		UseLate:  rapid.Bool().Draw(t, "useLate"),
+		CORS:     rapid.IntRange(0, 3).Draw(t, "cors") == 0,
 	}
 	if c.Subject != "router" {
 		c.Sib = rapid.SampledFrom([]string{"", "", "before", "after"}).Draw(t, "sib")
@@ -69,6 +74,9 @@ func gen(t *rapid.T) Case {
 		}
 		q.Sub = rapid.IntRange(0, 3).Draw(t, "sub") == 0
 		q.Srv = rapid.IntRange(0, 2).Draw(t, "underServer") == 0
+		if c.CORS && q.Method == "OPTIONS" {
+			q.ACRH = rapid.SampledFrom([]string{"X-A", "X-A,", ",X-B", "X-A,,X-B", ", ,", " ", "x-a , X-B", "X-C", "\t"}).Draw(t, "acrh")
+		}
 		c.Reqs = append(c.Reqs, q)
 	}
 	return c
@@ -87,6 +95,9 @@ type marker struct{ n int }
 func build(c Case) *world {
 	w := &world{env: rig.NewEnv()}
 	var opts []mux.Option
+	if c.CORS {
+		opts = append(opts, mux.WithCORS([]string{"*"}, []string{"X-A", "X-B"}, nil, 0, false))
+	}
 	switch c.Recovery {
 	case "func":
 		opts = append(opts, mux.WithRecovery(func(rw http.ResponseWriter, v any) {
@@ -185,6 +196,9 @@ func (w *world) serve(c Case, q Rq, val any) *rig.Outcome {
 		path = "/v1" + path
 	}
 	req := rig.Req{Method: q.Method, Path: path, PanicAt: q.PanicAt, PanicAfter: q.After, PanicWith: val, UnderServer: q.Srv}
+	if q.ACRH != "" {
+		req.Header = map[string][]string{"Origin": {"https://a.example"}, "Access-Control-Request-Method": {"GET"}, "Access-Control-Request-Headers": {q.ACRH}}
+	}
 	if q.Sub {
 		sub := "/b/9sub"
 		if c.Subject != "router" {
@@ -217,7 +231,7 @@ func check(c Case, st *rig.Stats) error {
 	// process-wide, so a twin that ran interleaved with the subject would suffer the same damage
 	normals := make([]*rig.Outcome, len(c.Reqs))
 	for i, q := range c.Reqs {
-		normals[i] = base.serve(c, Rq{Method: q.Method, Path: q.Path, Sub: q.Sub, Srv: q.Srv}, nil)
+		normals[i] = base.serve(c, Rq{Method: q.Method, Path: q.Path, Sub: q.Sub, Srv: q.Srv, ACRH: q.ACRH}, nil)
 	}
 	for i, q := range c.Reqs {
 		var val any
